@@ -75,8 +75,28 @@ def family():
     return _FAMILY
 
 
+_STRICT = None
+
+
+def strict():
+    """further hand-written "usual stricter variants" of the bundled schemas.  They are *not* part of the kernel-checked
+    family (no closed corollaries are generated for them); the totality search of C11 runs on them as it does on the family,
+    so that the choice of family members is not what keeps the sentence "never raises" true"""
+    global _STRICT
+    if _STRICT is None:
+        out = []
+        n = _nodes(list_schema)
+        n["list_item"] = {**n["list_item"], "content": "paragraph (ordered_list | bullet_list)?"}
+        out.append(SchemaInfo(Schema({"nodes": n, "marks": _marks(list_schema)}), "strict-list"))
+        n = _nodes(list_schema)
+        n["doc"] = {"content": "heading paragraph+ block*"}
+        out.append(SchemaInfo(Schema({"nodes": n, "marks": _marks(list_schema)}), "strict-doc"))
+        _STRICT = out
+    return _STRICT
+
+
 def by_name(name):
-    for s in family() + extra():
+    for s in family() + extra() + strict():
         if s.name == name:
             return s
     raise KeyError(name)
@@ -107,7 +127,8 @@ def extra():
                 "doc": {"content": "(A|B|C)*"}, "A": {"content": "p q*"}, "B": {"content": "q+"}, "C": {"content": "(p|q)*"},
                 "p": {}, "q": {}, "text": {},
             }}), "bridge-local"),
-            # a node that holds at most one text: a gap cut inside that text cannot be put back (see C04-around-text-gap)
+            # a node that holds at most one text: a gap cut inside that text could not be put back while insert_into tested
+            # can_replace(index, index, gap) (finding C04-around-text-gap); it validates the built (joined) content now
             SchemaInfo(Schema({"nodes": {
                 "doc": {"content": "(X|Z)*"}, "X": {"content": "text?"}, "Z": {"content": "text*"}, "text": {},
             }}), "optional-text-local"),
@@ -705,3 +726,83 @@ def mutate_spec(rng, spec):
             continue
         labels.append(k)
     return spec, labels
+
+
+# ---------------------------------------------------------------------------------------------
+# aimed schema shapes no bundled schema has
+
+def inline_container_schema(rng):
+    """the basic schema plus one or two *inline nodes with content* (a footnote, a ruby-like span) whose allowed marks are
+    drawn at random — none, all, a subset, or unrestricted — so that the inline node often allows fewer (or other) marks
+    than the textblock around it; sometimes a textblock restricts its marks as well.  Named "random": a replay carries the
+    whole spec."""
+    for _ in range(20):
+        n = _nodes(basic_schema)
+        m = _marks(basic_schema)
+        names = list(m)
+
+        def mark_expr():
+            r = rng.random()
+            if r < 0.15:
+                return None
+            if r < 0.3:
+                return ""
+            if r < 0.4:
+                return "_"
+            return " ".join(rng.sample(names, rng.randint(1, max(1, len(names) - 1))))
+        spec = {"inline": True, "group": "inline", "content": rng.choice(["text*", "text*", "text+", "(text | hard_break)*"])}
+        me = mark_expr()
+        if me is not None:
+            spec["marks"] = me
+        if rng.random() < 0.25:
+            spec["atom"] = True
+        n["footnote"] = spec
+        if rng.random() < 0.4:
+            spec2 = {"inline": True, "group": "inline", "content": "text*", "attrs": {"kind": {"default": "r"}}}
+            me = mark_expr()
+            if me is not None:
+                spec2["marks"] = me
+            n["ruby"] = spec2
+        if rng.random() < 0.3:
+            n[rng.choice(["paragraph", "heading"])]["marks"] = mark_expr() or "_"
+        try:
+            return SchemaInfo(Schema({"nodes": n, "marks": m}), "random")
+        except Exception:  # noqa: BLE001
+            continue
+    return inline_content_schema()
+
+
+FLAG_KEYS = ("isolating", "defining", "definingAsContext", "definingForContent")
+
+
+def flag_variant(info, mode, rng=None):
+    """a schema with the same node and mark names and the same content expressions as `info`'s, but other boundary flags:
+    mode "strip": no node type is isolating (documents carry over unchanged through JSON, and a node named like an
+    isolating one of `info` is an ordinary container here); mode "move": the isolating flag is taken from the types that
+    had it and given to other block containers (not the top node, not textblocks), `defining` flipped on some of them.
+    Named "random": a replay carries the whole spec."""
+    spec = info.schema.spec
+    nodes = {k: dict(v) for k, v in spec["nodes"].items()}
+    marks = {k: dict(v) for k, v in (spec.get("marks") or {}).items()}
+    top = spec.get("topNode") or "doc"
+    if mode == "strip":
+        for v in nodes.values():
+            v.pop("isolating", None)
+    else:
+        had = [k for k, v in nodes.items() if v.get("isolating")]
+        for k in had:
+            nodes[k].pop("isolating", None)
+        cont = [k for k, v in nodes.items() if k != top and k not in had and v.get("content") and not v.get("inline")
+                and not info.schema.nodes[k].inline_content]
+        rng.shuffle(cont)
+        for k in cont[:rng.randint(1, max(1, min(2, len(cont))))]:
+            nodes[k]["isolating"] = True
+            if rng.random() < 0.5:
+                nodes[k].pop("defining", None)
+        for k in had:
+            if rng.random() < 0.3:
+                nodes[k]["defining"] = True
+    out = {"nodes": nodes, "marks": marks}
+    if "topNode" in spec:
+        out["topNode"] = spec["topNode"]
+    return SchemaInfo(Schema(out), "random")
